@@ -165,7 +165,7 @@ def known_class_expr(eng, expr_src):
 
 
 def explore(case, roots=None, max_paths=10**9, deadline=None, timeout_ms=20000, xval=2, known=(), seed=0,
-            stop_on_violation=False):
+            stop_on_violation=False, labels=None):
     """Explore the subtrees below the given decision prefixes.
     Returns a JSON-able result dict; 'leftover' holds unexplored prefixes when max_paths/deadline hit."""
     t0 = time.time()
@@ -228,7 +228,8 @@ def explore(case, roots=None, max_paths=10**9, deadline=None, timeout_ms=20000, 
         else:
             tag = out.tag
             for label, cond in out.obs:
-                obligations.append((label, cond, None))
+                if labels is None or label in labels:      # only the obligations that belong to the property being decided
+                    obligations.append((label, cond, None))
         tkey = json.dumps(tag, default=str)
         res["tags"][tkey] = res["tags"].get(tkey, 0) + 1
         path_violated = False
@@ -343,9 +344,28 @@ def explore(case, roots=None, max_paths=10**9, deadline=None, timeout_ms=20000, 
                         res["samples"].append(dict(inputs={k: v for k, v in list(model_to_json(model).items())[:24]}, tag=tag,
                                                    obligations=sorted({l for l, _, _ in obligations}),
                                                    decisions=len(eng.trace)))
-                elif eng.uf_apps:
-                    # log/exp/erfc are over-approximated: a model of the axioms need not be a run of the real functions
+                elif eng.uf_apps or any(n.startswith("sqrt!") for n in eng.vars):
+                    # log/exp/erfc are over-approximated; square roots are irrational: the float replay may leave the path: a model of the axioms need not be a run of the real functions
                     res["xval_uf_skipped"] = res.get("xval_uf_skipped", 0) + 1
+                elif rep["status"] == "exception" or (rep["status"] == "ok" and not all(rep["verdicts"].values())):
+                    # the real code, run under plain NumPy on inputs that satisfy the harness assumptions, fails although
+                    # the encoding saw nothing (e.g. a value-kind effect the real-arithmetic model abstracts): a
+                    # counterexample found by the replay itself
+                    if rep["status"] == "exception":
+                        lab, info_ = "no_unexpected_exception", rep["exc"]
+                    else:
+                        lab, info_ = [l for l, t in rep["verdicts"].items() if not t][0], None
+                    L = res["labels"].setdefault(lab, dict(reached=0, discharged=0, violated=0))
+                    L["reached"] += 1
+                    L["violated"] += 1
+                    k_ = [kf for kf in known if kf.get("obligation") == lab and not kf.get("witness_class_z3")]
+                    rec_ = dict(label=lab, model=model_to_json(model), prefix=eng.trace, tag=rep.get("tag", tag), replay=rep, exc=info_,
+                                reproduced=True, found_by="replay")
+                    if k_:
+                        rec_["known"] = k_[0].get("id")
+                        res["known_hits"].append(rec_)
+                    else:
+                        res["violations"].append(rec_)
                 else:
                     res["xval_fail"].append(dict(model=model_to_json(model), sym_tag=tag, replay=rep))
         res["queries"] += eng.n_queries
